@@ -15,12 +15,17 @@ ENTRY = {
                       {"file": "abaco.go", "old": "ticker := time.NewTicker(as.readPeriod)", "new": "ticker := vNewTicker(as.readPeriod)"}],
         "quick": T(16, 180), "thorough": T(16, 900),
         "rule": "one execution = one complete interleaving (synchronisation-operation granularity, preemption-bounded, all select alternatives) of the driver threads "
-                "(Start, Stop callers) with the real CoreLoop goroutine and the producer goroutine of a scripted source; oracle: no deadlock, all calls return, final state "
-                "Inactive, writing stopped, no goroutine of the run left, and the same object restarts and delivers; non-trivial = at least one preemption",
+                "(Start, Stop callers; in S11 the real SourceControl.Start / SourceControl.Stop handlers) with the real CoreLoop goroutine and the producer goroutine of a scripted source "
+                "(S11: of the real ErroringSource, which ends by itself); oracle: no deadlock, all calls return (whatever Stop replies), final state "
+                "Inactive, writing stopped, no goroutine of the run left, and the same object restarts and delivers (S11: every later SourceControl.Start succeeds, and a Triangle "
+                "start through the same SourceControl delivers data); non-trivial = at least one preemption",
         "assumptions": ["Abaco/Lancero scenarios: the packet producer / card is scripted (Lancero: Sample() bypassed, geometry set directly) and the reader's ticker is a seam driven by a clock thread; the time.After alternatives of getNextBlock/readerMainLoop never fire",
                         "S8: the real TriangleSource / SimPulseSource with time.After / time.NewTicker replaced by channels that are ready three times per execution (the 1 s heartbeat ticker never fires); time.Until / time.Now stay real",
                         "the producer is scripted (it follows the protocol of SimPulseSource: select{abort|tick}, send, close(nextBlock)); real-time tickers of the simulated sources are not explored",
                         "Stop is only called after Start has returned (the RPC layer refuses Stop while no source is active); Start || Start is explored at the source level",
+                        "S11 (SourceControl level): the self-terminating source is the real ErroringSource (the only one SourceControl can start by name without hardware); the Abaco no-data time-out and Roach errors end a run through the same CoreLoop exit; "
+                        "SourceControl's outgoing channels (client updates, heartbeats) are drained by a goroutine without scheduling points of its own; SourceControl itself has no scheduling points (it has no synchronisation operations besides those sends): "
+                        "its calls interleave at the points inside Start/Stop/CoreLoop/RunDone*/GetState; concurrent Stop requests model two client connections",
                         "scheduling points are at channel operations, select, close, Lock/Unlock/Wait/Done in Start, CoreLoop, Stop, RunDone*, state accessors and WritingState"],
         "technique": "stateless model checking of the real goroutines under a controlled scheduler (preemption-bounded DFS over scheduling and select choices)",
     },
